@@ -46,6 +46,7 @@ type FuncContract struct {
 	Unroll     map[int]int
 	Safe       map[string]bool
 	Axiomatic  []int        // 1-based indices of ensures clauses exported as quantified axioms where the (pure) function is applied inside contract expressions
+	SpineStrict map[int]bool // newspine rK: as freshspine, but the container must be newly allocated (not an argument either): the caller's storage is never written or handed back
 	Spine      map[int]bool // freshspine rK: only the container of the K-th result must be newly allocated
 	FreshField map[int]string // fresh rK.Field: the claim is about that field of the K-th (struct) result only
 	Fresh      map[int]bool // result indices claimed to share no memory with inputs (ownership rule)
@@ -289,7 +290,7 @@ func (pc *PkgContracts) parseFile(path string) error {
 					}
 					cur.Axiomatic = append(cur.Axiomatic, idx)
 				}
-			case "fresh", "freshspine":
+			case "fresh", "freshspine", "newspine":
 				for _, k := range strings.FieldsFunc(rest, func(r rune) bool { return r == ',' || r == ' ' }) {
 					idx := 0
 					field := ""
@@ -301,11 +302,17 @@ func (pc *PkgContracts) parseFile(path string) error {
 							return fmt.Errorf("%s:%d: fresh wants result or rN, got %q", path, l.line, k)
 						}
 					}
-					if word == "freshspine" {
+					if word == "freshspine" || word == "newspine" {
 						if cur.Spine == nil {
 							cur.Spine = map[int]bool{}
 						}
 						cur.Spine[idx] = true
+						if word == "newspine" {
+							if cur.SpineStrict == nil {
+								cur.SpineStrict = map[int]bool{}
+							}
+							cur.SpineStrict[idx] = true
+						}
 						continue
 					}
 					if cur.Fresh == nil {
